@@ -458,6 +458,7 @@ func RunOnce(cfg Config, prefix []int, threads []ThreadSpec) *Exec {
 		s.shadow = map[uintptrKey]*shadowCell{}
 		s.raceSeen = map[string]bool{}
 	}
+	resetGlobalMutexes()
 	S = s
 	defer func() { S = nil }()
 	for _, ts := range threads {
